@@ -1,7 +1,7 @@
 /-
   C16 — property theorems (and non-vacuity examples) ONLY.  Helper lemmas: `Lemmas.lean`,
   `Columns.lean`, `Ops.lean`, `Refine.lean`, `Steps.lean`, `ReadOnly.lean`, `RoSteps.lean`, `Lifetime.lean`, `Builtins.lean`, `Sim.lean`,
-  `Quirks.lean`, `Frame.lean` (extension round).
+  `Quirks.lean`, `Frame.lean` (extension round), `FrameG.lean`, `BuiltinGlue.lean` (wave 3).
 
   Property text: "For every history of assignments, temporary assignments, function calls and
   returns, local declarations, exports, read-only marks and unsets, looking up a variable returns
@@ -18,6 +18,8 @@
 import YashModel.Variable.Prefix
 import YashModel.Variable.Observe
 import YashModel.Variable.Frame
+import YashModel.Variable.FrameG
+import YashModel.Variable.BuiltinGlue
 namespace YashModel.Variable
 
 /-! ### the normal form is an invariant -/
@@ -1005,6 +1007,214 @@ example : ∀ op ∈ mixedBody, ∀ m, op.globalName? = some m → ¬ (fun n => 
 example : (lt0.run (functionCmd [("x", .scalar "T")] ["a"] mixedBody)).get "x" = lt0.get "x" := by decide
 example : ((lt0.run (functionCmd [("x", .scalar "T")] ["a"] mixedBody)).get "z").map (·.value)
     = some (some (.scalar "9")) := by decide
+
+/-! ### wave 3: the frame rule for every kind of command -/
+
+/-- ★ `regular_command_frame` (closes the open item "regular commands with arbitrary bodies"):
+    a regular built-in, an external utility or a command that is not found, with *any* temporary
+    assignments and *any* body admissible for the names `N` (`frameOK N false []`: every context the
+    body pushes is popped again; no operation of the body reaches below the command's volatile
+    context for a name of `N` — that is, outside a regular context pushed by the body itself, no
+    access at `Global` or `Local` scope and no `unset` at `Volatile` scope names it — and `set --`
+    happens only inside such a regular context), from any normalised set.  For every name of `N` —
+    **whether or not it is among the temporary assignments** — the variable is afterwards what it was:
+    the visible one, the one each scope sees, its environment entry and every hidden instance; the
+    contexts and all positional parameters are what they were.  The condition is sharp: see the
+    examples below (`x=T typeset x` keeps `T`: `get_or_new(Local)` carries the temporary down). -/
+theorem regular_command_frame (s : VariableSet) (h : Norm s) (as : List (Name × Value))
+    (body : List Op) (N : Name → Prop) (hok : frameOK N false [] body) :
+    (∀ n, N n → (s.run (regularCmd as body)).get n = s.get n ∧
+      (∀ sc, (s.run (regularCmd as body)).getScoped n sc = s.getScoped n sc) ∧
+      (s.run (regularCmd as body)).env [n] = s.env [n] ∧
+      ∀ k, ((s.run (regularCmd as body)).run (List.replicate k Op.pop)).get n =
+        (s.run (List.replicate k Op.pop)).get n) ∧
+    (s.run (regularCmd as body)).contexts = s.contexts ∧
+    (s.run (regularCmd as body)).positionalParams = s.positionalParams :=
+  agree_transfer s h _ N (spec_regular_frame (abs s) (abs_ne_nil h) as body N hok)
+
+/-- ★ `command_frame`: one statement for both kinds of commands that set up a context
+    (`base = true`: function call with arguments `ps`; `base = false`: regular built-in / external /
+    not found), under the one admissibility condition `frameOK N base []`.  For `base = true` the
+    condition is implied by the hypotheses of `function_call_frame` (`frameOK_of_balanced`), so this
+    theorem contains that one. -/
+theorem command_frame (s : VariableSet) (h : Norm s) (as : List (Name × Value)) (ps : List String)
+    (base : Bool) (body : List Op) (N : Name → Prop) (hok : frameOK N base [] body) :
+    let cmd := if base then functionCmd as ps body else regularCmd as body
+    (∀ n, N n → (s.run cmd).get n = s.get n ∧
+      (∀ sc, (s.run cmd).getScoped n sc = s.getScoped n sc) ∧
+      (s.run cmd).env [n] = s.env [n] ∧
+      ∀ k, ((s.run cmd).run (List.replicate k Op.pop)).get n = (s.run (List.replicate k Op.pop)).get n) ∧
+    (s.run cmd).contexts = s.contexts ∧ (s.run cmd).positionalParams = s.positionalParams := by
+  cases base with
+  | true => exact agree_transfer s h _ N (spec_function_frameG (abs s) (abs_ne_nil h) as ps body N hok)
+  | false => exact agree_transfer s h _ N (spec_regular_frame (abs s) (abs_ne_nil h) as body N hok)
+
+/-- ★ `temporary_never_outlives_unless_lowered`: the clause of the statement for one name, in the
+    form a user reads it: `n=v cmd` where the running command (whatever it is and does otherwise, to
+    other names in any scope, nested commands and function calls included) names `n` only through
+    `Volatile`-scope accesses or inside function calls it makes: afterwards `n` is exactly what it was
+    before — value, attributes, or absence. -/
+theorem temporary_never_outlives_unless_lowered (s : VariableSet) (h : Norm s) (n : Name) (v : Value)
+    (others : List (Name × Value)) (body : List Op) (hok : frameOK (· = n) false [] body) :
+    (s.run (regularCmd (others ++ [(n, v)]) body)).get n = s.get n ∧
+    (s.run (regularCmd (others ++ [(n, v)]) body)).env [n] = s.env [n] :=
+  let r := (regular_command_frame s h (others ++ [(n, v)]) body (· = n) hok).1 n rfl
+  ⟨r.1, r.2.2.1⟩
+
+/-- non-vacuity: `x=T cmd` whose body declares a local `y` (`Local` scope reaches the context below:
+    `y` is not in `N`), assigns the global `z`, exports the temporary again, runs a nested function
+    call that has a local `x`, unsets it and does `set --` there -/
+def regBody : List Op :=
+  [.assign "y" .loc (.scalar "5") none, .assign "z" .global (.scalar "9") none,
+   .export "x" .volatile false,
+   .push .volatile, .push (.regular ["a"]), .assign "x" .loc (.scalar "3") none, .unset "x" .loc,
+   .setParams ["b"], .pop, .pop]
+
+example : frameOK (· = "x") false [] regBody := by
+  simp [frameOK, regBody, nextStack, Op.escName, Op.escParams, Context.isRegular]
+example : (lt0.run (regularCmd [("x", .scalar "T")] regBody)).get "x" = lt0.get "x" := by decide
+example : ((lt0.run (regularCmd [("x", .scalar "T")] regBody)).get "y").map (·.value)
+    = some (some (.scalar "5")) := by decide
+
+/-- the condition is sharp: each kind of access it excludes does change what is below.
+    `x=T typeset x` (a `Local`-scope access from the command's volatile context carries the temporary
+    down — the real shell prints `T` for `x=1; x=T typeset -g x; echo $x`), `x=T unset x` at `Volatile`
+    scope with a volatile context below, `set --` outside a regular context of the body -/
+example : (lt0.run (regularCmd [("x", .scalar "T")] [.getOrNew "x" .loc])).get "x"
+    = some { value := some (.scalar "T"), exported := true } := by decide
+example : ((lt0.run [.push .volatile, .assign "x" .volatile (.scalar "V") none]).run
+      (regularCmd [] [.unset "x" .volatile])).get "x" = some { value := some (.scalar "1") } := by decide
+example : (lt0.run (regularCmd [] [.setParams ["b"]])).positionalParams = ["b"] := by decide
+example : ¬ frameOK (· = "x") false [] [.getOrNew "x" .loc] := by simp [frameOK, Op.escName]
+
+
+/-- ★ `global_access_keeps_temporary`: the other side of `regular_command_frame`, for the case it
+    excludes.  `n=v cmd` where the regular built-in itself accesses `n` at `Global` scope
+    (`n=v typeset -g n`; `read`, `getopts`, `cd` assign this way too): `get_or_new(Global)` takes the
+    temporary variable out of the command's volatile context and lowers it, so after the command `n`
+    is visible with the temporary value `v` (unless it was read-only) and stays exported.  The real
+    shell prints `T` for `x=1; x=T typeset -g x; echo $x`; the script leg generates the family (`TP`). -/
+theorem global_access_keeps_temporary (s : VariableSet) (h : Norm s) (n : Name) (v : Value) :
+    ∃ u, (s.run (regularCmd [(n, v)] [.getOrNew n .global])).get n = some u ∧ u.exported = true ∧
+      (u.isReadOnly = false → u.value = some v) := by
+  obtain ⟨ha, hN'⟩ := run_abs_from h (regularCmd [(n, v)] [.getOrNew n .global])
+  obtain ⟨w, hw⟩ := spec_global_access_carries_temporary (abs s) (baseReg_abs h) n v
+  refine ⟨(w.assign v none).setExport true, by rw [get_abs hN', ha]; exact hw, rfl, ?_⟩
+  intro hro
+  exact assign_value w v none hro
+
+example : ((lt0.run (regularCmd [("x", .scalar "T")] [.getOrNew "x" .global])).get "x")
+    = some { value := some (.scalar "T"), exported := true } := by decide
+
+/-! ### wave 3: the built-ins' glue (typeset / export / readonly / unset) is inside the model -/
+
+/-- ★ `builtin_tables_match`: the tables re-extracted from yash-builtin on every run — role of every
+    option of `ALL_OPTIONS` in `interpret`, its scope choice, `From<Scope>`, the arms of the attribute
+    loop of `SetVariables::execute`, the attribute and scope `export`/`readonly` force, the scope of
+    `unset_variables`, the types of the built-ins — are exactly what `BuiltinModel.lean` implements
+    (a genuinely finite table: `decide`) -/
+theorem builtin_tables_match : builtinTablesOk = true := by decide
+
+/-- the built-in a statement kind of the script language runs -/
+def builtinOfStmt : String → Option String
+  | "S" => some ":" | "E" | "EX" => some "export" | "R" => some "readonly" | "U" | "UV" => some "unset"
+  | "SP" => some "set" | "T" | "L" | "G" => some "typeset" | _ => none
+
+def Action.isSpecial : Action → Bool
+  | .special _ _ => true
+  | _ => false
+
+/-- ★ `script_builtin_kinds_match`: a statement of the script language is interpreted as a special
+    built-in (assignments at `Global` scope, no volatile context, a refusal ends the shell) exactly
+    when `BUILTINS` of yash-builtin gives its built-in the type `Special`; `typeset` (`Elective`) is
+    interpreted with the volatile context of `execute_builtin`'s other branch -/
+theorem script_builtin_kinds_match :
+    ["S", "E", "EX", "R", "U", "UV", "SP", "T", "L", "G"].all (fun k =>
+      match builtinOfStmt k with
+      | none => false
+      | some b => (stmtAction ⟨k, ["x"], ["x"]⟩).isSpecial ==
+          (Generated.VariableTables.builtinTypes.lookup b == some "Special")) = true := by decide
+
+/-- ★ `script_typeset_is_execute`: what `Script.lean` does for `typeset opts operands` (statements
+    `T`, `L`, `G`; `opts` any sequence over -g -r -x -X +x +r) is the transcribed built-in:
+    `interpret` (attributes in option order, `-X` = export off, scope from `-g`) followed by
+    `SetVariables::execute` (split at `=`, `get_or_create_variable` in the converted scope, assignment
+    whose refusal skips the attributes, attribute loop where `+r` on a read-only variable is an error
+    that skips the rest), for every operand in order, on the Rust model and on the Spec alike -/
+theorem script_typeset_is_execute {σ} (I : Iface σ) (hI : NoRefusal I) (occs : List OptOcc)
+    (hfam : ∀ o ∈ occs, o ∈ typesetFamily) (operands : List String) (s : σ) :
+    stmtAction ⟨"T", occs.map optString, operands⟩
+      = .typeset [] (interpretScope (interpretLoop occs)).toScope (occs.map optString) operands ∧
+    operands.foldl (typesetField I (interpretScope (interpretLoop occs)).toScope (occs.map optString)) s
+      = (typesetMain I occs operands s).1 := by
+  constructor
+  · simp only [stmtAction]; rw [typeset_scope_eq occs hfam]
+  · simp only [typesetMain, SetVariables.execute, foldErrors_fst]
+    congr 1
+    funext s t
+    exact typesetField_eq_executeField I hI _ occs hfam operands s t
+
+/-- `L m…` is `typeset m…`, `G m…` is `typeset -g m…` -/
+example : stmtAction ⟨"L", ["x=1"], []⟩ = .typeset [] (interpretScope (interpretLoop [])).toScope
+    (([] : List OptOcc).map optString) ["x=1"] := rfl
+example : stmtAction ⟨"G", ["x=1"], []⟩ = .typeset [] (interpretScope (interpretLoop [⟨'g', true⟩])).toScope
+    ([⟨'g', true⟩].map optString) ["x=1"] := rfl
+example : NoRefusal ifaceM ∧ NoRefusal ifaceS := ⟨noRefusal_M, noRefusal_S⟩
+/-- non-vacuity (the operand text is split with `String.splitOn`, which the kernel does not unfold, so
+    the examples start after the split): `typeset -x +r -r x` in a function where `x` is a read-only
+    global — the local `x` is new, `+r` passes, `-r` marks it -/
+example : ((attrLoop ifaceM "x" .loc (interpretLoop [⟨'x', true⟩, ⟨'r', false⟩, ⟨'r', true⟩]).attrs
+    ((VariableSet.new.run [.assign "x" .global (.scalar "1") none, .readonly "x" .global 3,
+      .push (.regular []), .assign "x" .loc (.scalar "2") none]))).1.get "x")
+    = some { value := some (.scalar "2"), exported := true, readOnly := some 1 } := by decide
+/-- … and `typeset -g +r -x x`: `+r` on the read-only variable itself is the error that skips `-x` -/
+example : (attrLoop ifaceM "x" (interpretScope (interpretLoop [⟨'g', true⟩, ⟨'r', false⟩, ⟨'x', true⟩])).toScope
+    (interpretLoop [⟨'g', true⟩, ⟨'r', false⟩, ⟨'x', true⟩]).attrs
+    (VariableSet.new.run [.assign "x" .global (.scalar "1") none, .readonly "x" .global 3])).2 = true := by decide
+example : (interpretLoop [⟨'X', true⟩, ⟨'g', true⟩, ⟨'x', false⟩, ⟨'r', true⟩]).attrs
+    = [(.export, false), (.export, false), (.readOnly, true)] := by decide
+
+/-- ★ `script_declaration_is_execute`: `export m…` / `readonly m…` (statements `E`, `EX`, `R`:
+    `Exec.exportOps` / `Exec.readonlyOps` run until the first refusal, which ends the shell) against
+    the transcribed `export::main` / `readonly::main` (`interpret`, push `(Export|ReadOnly, On)`, scope
+    `Global`, `SetVariables::execute`, which goes on after an error and reports them all): the script
+    is aborted exactly when the built-in reports an error, and otherwise both end in the same state -/
+theorem script_declaration_is_execute {σ} (I : Iface σ) (hI : NoRefusal I) (operands : List String) (s : σ) :
+    (((runOps I s (operands.flatMap fun t => exportOps (operandOf t).1 (operandOf t).2)).2 = true ↔
+        0 < (declMain I .export [] operands s).2) ∧
+      ((declMain I .export [] operands s).2 = 0 →
+        runOps I s (operands.flatMap fun t => exportOps (operandOf t).1 (operandOf t).2)
+          = ((declMain I .export [] operands s).1, false))) ∧
+    (((runOps I s (operands.flatMap fun t => readonlyOps (operandOf t).1 (operandOf t).2 1)).2 = true ↔
+        0 < (declMain I .readOnly [] operands s).2) ∧
+      ((declMain I .readOnly [] operands s).2 = 0 →
+        runOps I s (operands.flatMap fun t => readonlyOps (operandOf t).1 (operandOf t).2 1)
+          = ((declMain I .readOnly [] operands s).1, false))) :=
+  ⟨runOps_flatMap_fold I _ _ (fun s t => (declField_eq I hI operands s t).1) operands s 0,
+   runOps_flatMap_fold I _ _ (fun s t => (declField_eq I hI operands s t).2) operands s 0⟩
+
+/-- ★ `script_unset_is_unset_variables`: `unset m…` (statements `U`, `UV`: `Exec.unsetOps`, stopped at
+    the first refusal) against the transcribed `unset_variables` (every operand at `Global` scope, the
+    loop goes on and collects the errors): aborted exactly when an error is reported, same state
+    otherwise -/
+theorem script_unset_is_unset_variables {σ} (I : Iface σ) (names : List Name) (s : σ) :
+    ((runOps I s (unsetOps names)).2 = true ↔ 0 < (unsetVariables I names s).2) ∧
+    ((unsetVariables I names s).2 = 0 → runOps I s (unsetOps names) = ((unsetVariables I names s).1, false)) := by
+  have h : unsetOps names = names.flatMap (fun n => [Op.unset n .global]) := by
+    unfold unsetOps; induction names <;> simp_all
+  rw [h]
+  exact runOps_flatMap_fold I _ _ (unsetField_eq I) names s 0
+
+/-- non-vacuity: `unset x y` where `x` is read-only: the script stops at `x`, the built-in reports one
+    error and has gone on to `y` -/
+def roX : VariableSet :=
+  VariableSet.new.run [.assign "x" .global (.scalar "0") none, .readonly "x" .global 3,
+    .assign "y" .global (.scalar "1") none]
+example : (unsetVariables ifaceM ["x", "y"] roX).2 = 1 := by decide
+example : (unsetVariables ifaceM ["x", "y"] roX).1.get "y" = none := by decide
+example : (runOps ifaceM roX (unsetOps ["x", "y"])).2 = true ∧
+    ((runOps ifaceM roX (unsetOps ["x", "y"])).1.get "y").isSome = true := by decide
+example : (unsetVariables ifaceM ["y"] roX).2 = 0 := by decide
 
 /-! ### non-vacuity: a set with a hidden global, a local and a temporary variable -/
 
